@@ -148,8 +148,45 @@ func Ite(c, a, b Term) Term {
 	}
 	return app(a.Sort, "ite", c, a, b)
 }
-func Add(a, b Term) Term { return app(SInt, "+", a, b) }
-func Sub(a, b Term) Term { return app(SInt, "-", a, b) }
+func litInt(t Term) (int64, bool) {
+	if t.Sort != SInt || len(t.S) == 0 || len(t.S) > 15 {
+		return 0, false
+	}
+	var n int64
+	for i := 0; i < len(t.S); i++ {
+		c := t.S[i]
+		if c < '0' || c > '9' {
+			return 0, false
+		}
+		n = n*10 + int64(c-'0')
+	}
+	return n, true
+}
+func Add(a, b Term) Term {
+	x, ok1 := litInt(a)
+	y, ok2 := litInt(b)
+	if ok1 && ok2 {
+		return I(x + y)
+	}
+	if ok1 && x == 0 {
+		return b
+	}
+	if ok2 && y == 0 {
+		return a
+	}
+	return app(SInt, "+", a, b)
+}
+func Sub(a, b Term) Term {
+	x, ok1 := litInt(a)
+	y, ok2 := litInt(b)
+	if ok1 && ok2 && x >= y {
+		return I(x - y)
+	}
+	if ok2 && y == 0 {
+		return a
+	}
+	return app(SInt, "-", a, b)
+}
 func Mul(a, b Term) Term { return app(SInt, "*", a, b) }
 func Le(a, b Term) Term  { return app(SBool, "<=", a, b) }
 func Lt(a, b Term) Term  { return app(SBool, "<", a, b) }
@@ -386,7 +423,10 @@ const prelude = `(declare-sort F64 0)
 `
 
 // Query renders the SMT-LIB script for one obligation (sliced to what it depends on).
-func (vc *VC) Query(o *Obligation, wantModel bool) string {
+func (vc *VC) Query(o *Obligation, wantModel bool) string { return vc.QueryOpt(o, wantModel, false) }
+
+// QueryOpt: groundOnly drops the quantified assumptions (used as a fallback for vacuity covers only).
+func (vc *VC) QueryOpt(o *Obligation, wantModel bool, groundOnly bool) string {
 	need := map[string]bool{}
 	var work []string
 	addSyms := func(s string) {
@@ -404,6 +444,9 @@ func (vc *VC) Query(o *Obligation, wantModel bool) string {
 	seen := map[string]bool{}
 	for _, a := range vc.assumes {
 		if a.seq < o.Seq && !seen[a.text] {
+			if groundOnly && (strings.Contains(a.text, "(forall ") || strings.Contains(a.text, "(exists ")) {
+				continue
+			}
 			seen[a.text] = true
 			as = append(as, a)
 			addSyms(a.text)
@@ -587,7 +630,19 @@ func Discharge(vcs []*VC, outDir string, timeoutS int, par int) {
 			if len(base) > 120 {
 				base = base[:120]
 			}
-			r := Solve(outDir, base, script, timeoutS)
+			to := timeoutS
+			if j.o.Cover && to > 5 {
+				to = 5
+			}
+			r := Solve(outDir, base, script, to)
+			if j.o.Cover && r.status != "sat" && r.status != "unsat" {
+				// quantified assumptions keep the solver from building a model: retry on the ground part
+				r2 := Solve(outDir, base+"_ground", j.vc.QueryOpt(j.o, false, true), 5)
+				if r2.status == "sat" || r2.status == "unsat" {
+					r = r2
+					r.backend += "(ground-only)"
+				}
+			}
 			j.o.Status, j.o.Backend, j.o.TimeS, j.o.Raw = r.status, r.backend, r.dur, r.out
 			if r.status == "sat" {
 				j.o.Model = parseValues(r.out)
